@@ -2168,6 +2168,7 @@ long ov_read_float(OggVorbis_File *vf,float ***pcm_channels,int length,
                    int *bitstream){
 
   if(vf->ready_state<OPENED)return(OV_EINVAL);
+  if(length<0)return(OV_EINVAL); /* would move the position backwards */
 
   while(1){
     if(vf->ready_state==INITSET){
